@@ -23,6 +23,7 @@ part ops : ["wrap", kind]  kind in def|async|method|if|try|with|for|nested|while
            ["dupimport"]    second binding of the first imported module in the same block, and a use of it
 file ops : ["prepend", n, style]  style in comment|blank|docstring
            ["append", n]
+           ["scopes"]                 scope-dependent bindings appended (global / nonlocal / function-local import)
            ["eol", "crlf"|"mixed"]
            ["nofinalnl"], ["bom"], ["formfeed"]
 """
@@ -648,6 +649,13 @@ def render(case, filename="code.py"):
         elif op[0] == "append":
             text = text + "".join(f"_tail{k} = {k}\n" for k in range(op[1]))
             labels.append("fop:append")
+        elif op[0] == "scopes":
+            # bindings that are only reachable through scope rules: a module global assigned inside a function
+            # (`global`), a closure cell rebound through `nonlocal`, a function-local import read by an inner function
+            new = text + SCOPES_TAIL
+            if parse_level(new) >= base_level:
+                text = new
+                labels.append("fop:scopes")
     docs = [shift_doc(d, pre_lines, 0, filename) for d in docs]
     part_ranges = [[i, a + pre_lines, b + pre_lines] for i, a, b in part_ranges]
     # byte-level ops last
@@ -696,6 +704,26 @@ def render(case, filename="code.py"):
 # ------------------------------------------------------------------ Hypothesis strategies
 
 
+SCOPES_TAIL = """def _cmv_set(v):
+    global _cmv_state
+    _cmv_state = v
+def _cmv_get():
+    return _cmv_state
+def _cmv_counter():
+    count = 0
+    def bump():
+        nonlocal count
+        count = count + 1
+        return count
+    return bump
+def _cmv_late():
+    import json as _cmv_json
+    def use():
+        return _cmv_json.dumps({})
+    return use
+"""
+
+
 def part_ops():
     return st.lists(
         st.one_of(
@@ -729,6 +757,7 @@ def file_ops():
             st.just(["nofinalnl"]),
             st.just(["bom"]),
             st.just(["formfeed"]),
+            st.just(["scopes"]),
         ),
         max_size=3,
         unique_by=lambda o: o[0],
